@@ -240,4 +240,8 @@ class ClassicallyControlledOperation(raw_types.Operation):
         if not self._conditions:
             return subop_qasm
         condition_qasm = " && ".join(protocols.qasm(c, args=args) for c in self._conditions)
-        return f'if ({condition_qasm}) {subop_qasm}'
+        # An OpenQASM `if` governs a single statement: repeat it for every statement of the sub-operation.
+        return ''.join(
+            f'{line}\n' if not line.strip() or line.lstrip().startswith('//') else f'if ({condition_qasm}) {line}\n'
+            for line in subop_qasm.splitlines()
+        )
